@@ -10,7 +10,7 @@ exit 0: property held on everything explored (KNOWN-FINDING lines may be printed
 exit 1: `VIOLATION property=<id> replay=<path>[ no-failing-input-found]`
 exit 2: infrastructure trouble (never a VIOLATION line)
 """
-import os, sys, json, time, argparse, importlib, traceback, hashlib, glob, random
+import re, os, sys, json, time, argparse, importlib, traceback, hashlib, glob, random
 
 HERE = os.path.dirname(os.path.abspath(__file__))
 sys.path.insert(0, HERE)
@@ -34,10 +34,14 @@ def all_props():
     return sorted(os.path.basename(p)[:-3].upper() for p in glob.glob(os.path.join(HERE, "props", "c[0-9]*.py")))
 
 
+class InfrastructureError(Exception):
+    pass
+
+
 def known_findings():
     path = os.path.join(VERIF, "known_findings.json")
     if not os.path.exists(path):
-        return {}
+        raise InfrastructureError("known_findings.json is missing: open findings cannot be told from new violations")
     data = json.load(open(path))
     return {f["id"]: f for f in data.get("findings", []) if f.get("status") == "open"}
 
@@ -148,6 +152,24 @@ def view(mod, case):
     return case if len(s) < 1500 else {"abbreviated": s[:1500] + "..."}
 
 
+def report_broken(broken):
+    """console diagnostics: which obligation failed first-hand (anchors, probes, the theorems the build names) and
+    how many theorems are merely not checked because their file does not build"""
+    not_checked = [o for o in broken if o.get("kind") == "theorem" and o.get("detail") == "Props file does not build"]
+    for o in broken:
+        if o in not_checked:
+            continue
+        if o.get("failed"):
+            errs = re.findall(r"error: [^\n]*(?:\n(?!\S*(?:error|warning|info|✖|⚠|ℹ|✔)).*){0,12}", o.get("detail", ""))
+            log(f"broken: {o['name']}: failing declarations {o['failed']}")
+            for e in errs[:4]:
+                log("    " + e[:1200].replace("\n", "\n    "))
+        else:
+            log(f"broken: {o['name']}: {o.get('detail','')[:800]}")
+    if not_checked:
+        log(f"{len(not_checked)} theorem(s) of the same file are not checked in this run because the file does not build")
+
+
 def check(cid, tier, seed):
     t_start = time.time()
     mod = load_module(cid)
@@ -161,6 +183,7 @@ def check(cid, tier, seed):
         src.anchors.append(dict(name="translate", ok=False, value=None, detail=f"{type(e).__name__}: {e}"))
         gen_text = None
     anchors = src.anchors
+    anchors.extend(src.binding_anchors())  # every function the translator looked up is bound once, with its documented decorators
     # tables of the properties whose Lean files this property imports are regenerated from the same tree,
     # so that no stale Gen file of another check's run can influence (or break) this build
     dep_gen = {}
@@ -168,7 +191,7 @@ def check(cid, tier, seed):
         try:
             dsrc = core.Source(REPO)
             dep_gen[dep] = load_module(dep).translate(dsrc)
-            for a in dsrc.anchors:
+            for a in dsrc.anchors + dsrc.binding_anchors():
                 if not a["ok"]:
                     anchors.append(dict(name=f"{dep}:{a['name']}", ok=False, value=None, detail="anchor of a property this one builds on: " + str(a.get("detail", ""))))
         except Exception as e:
@@ -199,12 +222,32 @@ def check(cid, tier, seed):
     for p in probes:
         obligations.append(dict(name="probe:" + p["name"], kind="probe", ok=p["ok"], detail=p.get("detail", "")))
     broken = [o for o in obligations if not o["ok"]]
+    try:
+        kf = known_findings()
+    except InfrastructureError as e:
+        log(f"infrastructure failure: {e}")
+        return 2
+
+    def classify_all(records):
+        """(hits of open known findings, unlisted findings) of the records"""
+        hits, unl = {}, []
+        for r in records:
+            for f in r["findings"]:
+                fid = mod.classify(r["case"], r["obs"], f) if hasattr(mod, "classify") else None
+                if fid is not None and fid in kf and kf[fid]["property"] == cid:
+                    hits.setdefault(fid, []).append((r, f))
+                else:
+                    unl.append((r, f))
+        return hits, unl
+
     bad = [r for r in recs if r["findings"]]
-    spec_bad = [(r, f) for r in bad for f in r["findings"] if f["kind"] == "spec"]
+    kf_hits, unlisted = classify_all(bad)
     # ---- E search when something broke but no failing input is known yet ---------------------
+    # (only findings that are NOT open known findings count as "a failing input is known": a listed finding that
+    #  shows up on every run must not switch the search off)
     searched = 0
-    if (broken or bad) and not spec_bad and ba["driver_ok"]:
-        log(f"broken obligations: {[o['name'] for o in broken]}; disagreements: {len(bad)} -> searching for a failing input")
+    if (broken or unlisted) and not any(f["kind"] == "spec" for _, f in unlisted) and ba["driver_ok"]:
+        log(f"broken obligations: {[o['name'] for o in broken]}; unlisted disagreements: {len(unlisted)} -> searching for a failing input")
         extra = []
         if hasattr(mod, "search_cases"):
             extra += list(mod.search_cases(rng, broken, anchors))
@@ -213,18 +256,7 @@ def check(cid, tier, seed):
         recs2 = evaluate(mod, extra, getattr(mod, "PARALLEL", False))
         recs += recs2
         bad = [r for r in recs if r["findings"]]
-        spec_bad = [(r, f) for r in bad for f in r["findings"] if f["kind"] == "spec"]
-    # ---- classify against open known findings ------------------------------------------------
-    kf = known_findings()
-    kf_hits = {}
-    unlisted = []
-    for r in bad:
-        for f in r["findings"]:
-            fid = mod.classify(r["case"], r["obs"], f) if hasattr(mod, "classify") else None
-            if fid is not None and fid in kf and kf[fid]["property"] == cid:
-                kf_hits.setdefault(fid, []).append((r, f))
-            else:
-                unlisted.append((r, f))
+        kf_hits, unlisted = classify_all(bad)
     # ---- evidence ----------------------------------------------------------------------------
     keys = set()
     nontrivial = set()
@@ -295,6 +327,7 @@ def check(cid, tier, seed):
             json.dump(payload, open(path, "w"), indent=1, default=str)
             print(f"VIOLATION property={cid} replay={path} no-failing-input-found")
         log(f"{f2['kind']} finding, clause {f2['clause']}: {f2.get('detail','')[:600]}")
+        report_broken(broken)
         rc = 1
     elif broken:
         payload = dict(property=cid, seed=seed, tier=tier, kind="obligation", clause="broken-obligation",
@@ -302,8 +335,7 @@ def check(cid, tier, seed):
                        note=f"these proof obligations / translator anchors / probes no longer check; {len(recs)} cases (incl. {searched} search cases) showed no failing input")
         path = write_replay(cid, seed, 0, payload)
         print(f"VIOLATION property={cid} replay={path} no-failing-input-found")
-        for o in broken:
-            log(f"broken: {o['name']}: {o.get('detail','')[:800]}")
+        report_broken(broken)
         rc = 1
     ev["wall_s"] = round(time.time() - t_start, 2)
     os.makedirs(os.path.dirname(evidence_path), exist_ok=True)
